@@ -556,7 +556,7 @@ func (ex *Exec) verifCall(fr *Frame, f *ssa.Function, cc *ssa.CallCommon, args [
 		ex.nobj++
 		o := &Obj{id: ex.nobj, size: int64(capa.Val), cells: map[int64]cell{}, name: label, base: base.Val, region: true}
 		ex.objs = append(ex.objs, o) // keeps ids dense; objContaining finds it through ex.regions
-		if sym.Val != 0 {
+		if sym.Val&1 != 0 {
 			o.arr = "A!" + sanitize(label)
 		}
 		for _, r := range ex.regions {
